@@ -121,6 +121,7 @@ pub(crate) mod verif_proofs {
     k_sample_n!(k_sample_1, 1);
     k_sample_n!(k_sample_2, 2);
     k_sample_n!(k_sample_3, 3);
+    k_sample_n!(k_sample_4, 4);
 
     /// [C06.none] an event for which the state declares no transitions never moves the machine
     #[kani::proof]
